@@ -231,6 +231,8 @@ func (w *World) Genesis() []byte {
 
 	govGen := govv1.DefaultGenesisState()
 	govGen.DepositParams.MinDeposit = sdk.NewCoins(sdk.NewInt64Coin(Denom, 10_000_000))
+	vp := 20 * time.Second // parameter-change proposals are decided within a few blocks
+	govGen.VotingParams.VotingPeriod = &vp
 	gs["gov"] = cdc.MustMarshalJSON(govGen)
 
 	sl := slashingtypes.DefaultGenesisState()
